@@ -281,7 +281,7 @@ def finish(prop, tier, seed, level, records, errors, walls, t0, *, functions, as
         "open": sum(1 for r in normal if r["verdict"] == "open"),
         "unbounded_obligations": unb,
         "shape_bounded_obligations": nobl - unb,
-        "every_team_size_obligations": sum(1 for r in normal if "/any-team-size/" in r["name"]),
+        "every_team_size_obligations": sum(1 for r in normal if "any-team-size" in r["name"]),
         "by_backend": by_backend,
         "by_function": by_fn,
         "functions_under_contract": sorted(functions),
